@@ -6,6 +6,10 @@ import (
 )
 
 func (t *T) IsEmptyDefineArgs() bool {
+	if t == nil {
+		return false
+	}
+
 	for _, m := range t.Overloads {
 		if len(m.defineArgs) > 0 {
 			return false
@@ -92,10 +96,18 @@ func (t *T) IsUnknownType() bool {
 }
 
 func (t *T) IsClassType() bool {
+	if t == nil {
+		return false
+	}
+
 	return t.tType == CLASS
 }
 
 func (t *T) IsClassIdentifier() bool {
+	if t == nil {
+		return false
+	}
+
 	if t.tType != UNKNOWN {
 		return false
 	}
@@ -199,6 +211,10 @@ func (t *T) IsExclamationIdentifier() bool {
 }
 
 func (t *T) IsTransformTargetIdentifier() bool {
+	if t == nil {
+		return false
+	}
+
 	transformTargetIdentifiers := []string{
 		"%",
 		"&",
@@ -226,6 +242,10 @@ func (t *T) IsTransformTargetIdentifier() bool {
 }
 
 func (t *T) IsTopLevelFunctionIdentifier(frame string, class string) bool {
+	if t == nil {
+		return false
+	}
+
 	if t.tType != UNKNOWN {
 		return false
 	}
@@ -257,10 +277,18 @@ func (t *T) IsCloseParentheses() bool {
 }
 
 func (t *T) IsImmediate() bool {
+	if t == nil {
+		return false
+	}
+
 	return t.tType != UNKNOWN
 }
 
 func (t *T) IsPredicateIdentifier() bool {
+	if t == nil {
+		return false
+	}
+
 	predicateIdentifiers := []string{
 		">",
 		"<",
@@ -274,6 +302,10 @@ func (t *T) IsPredicateIdentifier() bool {
 }
 
 func (t *T) IsEmpty() bool {
+	if t == nil {
+		return false
+	}
+
 	if t.GetType() == STRING {
 		return false
 	}
@@ -580,6 +612,10 @@ func (t *T) IsRefferenceAbleT() bool {
 }
 
 func (t *T) IsUpperPrefix() bool {
+	if t == nil {
+		return false
+	}
+
 	return IsUpper(t.ToString())
 }
 
@@ -592,5 +628,9 @@ func (t *T) IsBuiltinMethod() bool {
 }
 
 func (t *T) HasOverloads() bool {
+	if t == nil {
+		return false
+	}
+
 	return len(t.Overloads) > 0
 }
